@@ -140,7 +140,9 @@ func SetupEnv(repo, verif, tier string, seed int, pkgs []string) (*Env, error) {
 	env.Scratch = filepath.Join(verif, "scratch", fmt.Sprintf("run-%d", os.Getpid()))
 	os.MkdirAll(env.Scratch, 0o755)
 	smt.TmpDir = env.Scratch
-	env.Timeout = 10 * time.Second
+	// the slowest obligation of the unchanged tree takes about 3 s on an idle machine: a
+	// wide margin keeps a loaded machine from turning a proof into a time-out
+	env.Timeout = 20 * time.Second
 	if tier == "thorough" {
 		env.Timeout = 60 * time.Second
 	}
